@@ -46,7 +46,13 @@ def has_shared_mutable_state(spec):
 
 def worker(job, extra):
     seed = job['seed']
-    spec = job.get('spec') or gen.gen_spec(seed, dict(PROFILE))
+    prof = dict(PROFILE)
+    if seed % 5 == 4:
+        # simultaneous service starts (batches on a time lattice) at multi-server nodes with pre-emptive priorities: whichever of
+        # several equally good victims / candidates is taken must not depend on object identity (memory addresses, hash order)
+        prof.update(n_classes=[2, 3], p_prio=1.0, force_distinct_prio=True, p_prio_preempt=1.0, p_kinds=(0.85, 0.0, 0.15, 0.0),
+                    p_batch=0.8, p_lattice=1.0, p_ps=0.0, p_exact=0.0, int_servers=[2, 3, 3, 4])
+    spec = job.get('spec') or gen.gen_spec(seed, prof)
     spec['tie'] = 'native'
     res = {'job': job, 'seed': seed, 'cmp': {}, 'features': sorted(gen.features(spec)), 'sig': repr(gen.topo_signature(spec))}
     k_ = reaches_open_finding(spec)
